@@ -642,3 +642,127 @@ def keyed_lost_update_rule(chk: Check, rule: str, what: str, floor: int) -> None
                     chk.violation(rule, fn, construct,
                                   f"`{dname}[{key!r}]` was filled from `{unparse(src, 60)}` (keys {sorted(keys)}) and is then assigned without reading it: when both sources are configured the first one's values under {key!r} are dropped (e.g. `--set-header` values vanish as soon as `--header` is given)",
                                   fn.loc(s))
+
+
+# ------------------------------------------------------------------------------------------------- in-place sanitizer
+_COPY_CALLS = ("deepclone", "deepcopy", "copy", "dict", "list", "CaseInsensitiveDict", "parse_qs", "parse_qsl")
+
+
+def _fresh_expr(fn: FuncInfo, e: ast.AST | None, depth: int = 0) -> bool | None:
+    """True: a container created here (copy / display / comprehension / call result); False: an alias of caller-owned
+    data (attribute chain rooted at a parameter, a bare parameter); None: not decided."""
+    if e is None or depth > 4:
+        return None
+    if isinstance(e, (ast.Dict, ast.List, ast.DictComp, ast.ListComp, ast.SetComp, ast.Set)):
+        return True
+    if isinstance(e, ast.Call):
+        return True if (last_attr(e) in _COPY_CALLS or isinstance(e.func, (ast.Name, ast.Attribute))) else None
+    params = set(params_of(fn.node)) if not isinstance(fn.node, ast.Lambda) else set()
+    if isinstance(e, ast.Attribute):
+        root = e
+        while isinstance(root, ast.Attribute):
+            root = root.value  # type: ignore[assignment]
+        if isinstance(root, ast.Name) and (root.id in params or root.id in ("self",)):
+            return False
+        if isinstance(root, ast.Name):
+            r = _fresh_expr(fn, root, depth + 1)
+            return False if r is False else None
+        return None
+    if isinstance(e, ast.Name):
+        if e.id in params:
+            return False
+        vals = [v for _, v in assignments_to(fn.node, e.id) if v is not None]
+        if not vals:
+            return None
+        res = [_fresh_expr(fn, v, depth + 1) for v in vals]
+        if any(r is False for r in res):
+            return False  # on some path the local still is the caller's object
+        return True if all(r is True for r in res) else None
+    if isinstance(e, ast.IfExp):
+        a, b = _fresh_expr(fn, e.body, depth + 1), _fresh_expr(fn, e.orelse, depth + 1)
+        return False if (a is False or b is False) else (True if a and b else None)
+    return None
+
+
+def inplace_sanitizer_rule(chk: Check, rule: str, floor: int = 3) -> None:
+    """OWNERSHIP(in-place sanitizer): `sanitize_value(x)` rewrites x IN PLACE.  Wherever it is applied, x must be a
+    container created for the output (a copy, a freshly built dict) - never the case's own query / cookies / headers,
+    which are what is sent to the API afterwards."""
+    chk.rule(rule, "OWNERSHIP(in-place sanitizer): every container handed to sanitize_value (which rewrites its argument in place) was created for the output - a deepclone / copy / freshly built dict - and is not an alias of the test case's own query, cookies or headers (directly, or as a value of the dict returned by serialize_case)", floor=floor)
+    P = chk.project
+    n = 0
+    for fn in P.all_functions():
+        if isinstance(fn.node, ast.Lambda) or fn.module.relpath == "core/output/sanitization.py":
+            continue
+        for c in body_calls(fn):
+            if not (last_attr(c) == "sanitize_value" and c.args):
+                continue
+            n += 1
+            arg = c.args[0]
+            construct = f"sanitize_value({unparse(arg, 40)}) works on a copy"
+            verdict: bool | None
+            why = ""
+            if isinstance(arg, ast.Subscript) and isinstance(arg.value, ast.Name) and isinstance(arg.slice, ast.Constant):
+                holder, key = arg.value.id, arg.slice.value
+                g = cfg_of(fn)
+                # a dominating local re-store `holder[key] = <copy>` wins
+                stores = [s for s in walk_body(fn.node) if isinstance(s, ast.Assign) and len(s.targets) == 1 and isinstance(s.targets[0], ast.Subscript) and isinstance(s.targets[0].value, ast.Name) and s.targets[0].value.id == holder and isinstance(s.targets[0].slice, ast.Constant) and s.targets[0].slice.value == key]
+                copied = [s for s in stores if _fresh_expr(fn, s.value) is True and isinstance(s.value, ast.Call) and last_attr(s.value) in _COPY_CALLS]
+                here = g.stmt_nodes_containing(c)
+                if copied and g.path([g.entry], here, avoid=[nid for s in copied for nid in g.nodes_of(s)], edge_ok=lambda a, b, lbl: not lbl.startswith("exc:")) is None:
+                    verdict, why = True, f"`{holder}[{key!r}]` is replaced by a copy on every path before"
+                else:
+                    # where does the holder come from?  a call returning a dict display: classify that key's value
+                    verdict = None
+                    for _, v in assignments_to(fn.node, holder):
+                        if isinstance(v, ast.Call):
+                            for callee in P.find_function_by_name(last_attr(v) or ""):
+                                if isinstance(callee.node, ast.Lambda):
+                                    continue
+                                for r in simple_return_expr(callee):
+                                    rr = r
+                                    if isinstance(rr, ast.Name):
+                                        ds = [x for _, x in assignments_to(callee.node, rr.id) if isinstance(x, ast.Dict)]
+                                        rr = ds[0] if ds else rr
+                                    if isinstance(rr, ast.Dict):
+                                        for k_, v_ in zip(rr.keys, rr.values):
+                                            if isinstance(k_, ast.Constant) and k_.value == key:
+                                                fr = _fresh_expr(callee, v_)
+                                                if fr is False:
+                                                    verdict, why = False, f"`{holder}[{key!r}]` is `{unparse(v_, 40)}` of {callee.qualname}: the case's own container"
+                                                elif fr is True and verdict is None:
+                                                    verdict, why = True, f"`{holder}[{key!r}]` is built by {callee.name}"
+            elif isinstance(arg, ast.Name):
+                # flow-sensitive: which definitions of the local reach this call (`headers = deepclone(headers)` first)
+                from ..dataflow import propagate
+
+                g = cfg_of(fn)
+                is_param = arg.id in params_of(fn.node)
+
+                def classify(v: ast.expr, fn: FuncInfo = fn) -> str:
+                    r = _fresh_expr(fn, v)
+                    return "fresh" if r is True else ("alias" if r is False else "unknown")
+
+                states = propagate(g, arg.id, [g.entry], ["alias" if is_param else "<unassigned>"], classify)
+                reach: set[str] = set()
+                for nid in g.stmt_nodes_containing(c):
+                    reach |= states.get(nid, set())
+                reach.discard("<unassigned>")
+                if reach and reach <= {"fresh"}:
+                    verdict, why = True, "every definition that reaches the call is a copy / fresh container"
+                elif "alias" in reach:
+                    verdict, why = False, f"`{arg.id}` can still be the caller's own object here"
+                else:
+                    verdict, why = None, ""
+            else:
+                verdict = _fresh_expr(fn, arg)
+                why = "created in this function" if verdict else ("an alias of caller-owned data" if verdict is False else "")
+            if verdict is True:
+                chk.ok(rule, fn, construct, why, fn.loc(c))
+            elif verdict is False:
+                chk.violation(rule, fn, construct,
+                              f"{why}. sanitize_value replaces sensitive-looking entries by `[Filtered]` in place, so after a curl command / hash / failure message was produced with sanitization on, the case itself carries `[Filtered]` and that is what is sent to the API next (e.g. `--set-query api_key=...` with unique inputs)",
+                              fn.loc(c))
+            else:
+                chk.undecided(rule, fn, construct, "origin of the container not recognised", fn.loc(c))
+    chk.note(f"{rule}: {n} sanitize_value call site(s)")
